@@ -1197,6 +1197,12 @@ class Engine:
             sp = self.schema.get_attr_special(self, obj, attr, st)
             if sp is not None:
                 return sp
+        if k == "super":
+            ci, selfsv = obj.x
+            for c2 in ci.mro[1:]:
+                if attr in c2.methods:
+                    return SV("boundmethod", x=(selfsv, c2.methods[attr], c2))
+            raise Unsupported("super().%s not found in package classes" % attr)
         if k in ("set", "list", "dict", "bytes", "str", "tuple", "gen", "seq"):
             return SV("boundbuiltin", x=(obj, attr))
         if k == "val" and attr == "value" and obj.x == "enum":
